@@ -719,3 +719,77 @@ def r5h_usage_before_definition_line(ctx):
     r.floor("positional lookups", len(positional), 1)
     r.floor("positional lookups in cursor-driven functions", n, 1)
     return r
+
+
+# ------------------------------------------------------------------------------------------ R5i: per-document answers are pinned
+def _slice_fields(f, op, depth=0, seen=None):
+    """(owner, field) projections read in the backward slice of an operand inside f (through call arguments)"""
+    seen = seen if seen is not None else set()
+    out = set()
+    p = op_place(op)
+    if p is None:
+        return out
+    out |= set(proj_fields(place_projs(p)))
+    l = place_local(p)
+    if l in seen or depth > 20:
+        return out
+    seen.add(l)
+    for d in f.defs().get(l, []):
+        if d[0] == "call":
+            for a in d[2]["args"]:
+                out |= _slice_fields(f, a, depth + 1, seen)
+        elif d[0] == "assign":
+            rv = d[3]
+            ops = [rv[1]] if rv[0] == "use" else [["cp", rv[2]]] if rv[0] == "ref" else rv[2] if rv[0] == "agg" else [rv[2]] if rv[0] == "cast" \
+                else [rv[2], rv[3]] if rv[0] == "bin" else []
+            for o in ops:
+                if isinstance(o, list):
+                    out |= _slice_fields(f, o, depth + 1, seen)
+    return out
+
+
+URILESS_ITEMS = ("DocumentSymbol", "CodeLens", "InlayHint", "DocumentHighlight", "FoldingRange", "SelectionRange")
+
+
+def r5i_per_document_items_pinned(ctx):
+    r = Result("R5i", "a protocol item that carries positions but no uri (DocumentSymbol, CodeLens, InlayHint, DocumentHighlight, "
+                      "FoldingRange: they are interpreted in the requested document) is built from a FixtureDefinition only under a "
+                      "comparison of that definition's file_path (the construction is dominated by the comparison): the name-keyed "
+                      "definition map holds the definitions of every file, an unpinned item places another file's fixture at a "
+                      "position of this document")
+    from ..facts import DbInfo
+    db = ctx.memo("dbinfo", lambda: DbInfo(ctx))
+    crate = ctx.bin
+    n = 0
+    POS = {"line", "end_line", "start_char", "end_char"}
+    for f in crate.real_fns():
+        aggs = [(bb, rv, sp) for bb, si, pl, rv, sp in f.assigns()
+                if rv[0] == "agg" and rv[1][0] == "adt" and rv[1][1].split("::")[-1] in URILESS_ITEMS]
+        if not aggs:
+            continue
+        dom = f.dominators()
+        pins = []
+        for bb, c in f.calls():
+            if c.get("fn") in ("std::cmp::PartialEq::eq", "std::cmp::PartialEq::ne"):
+                for a in c["args"]:
+                    terms = db.origins.of_operand(f, a)
+                    if any(len(t) > 3 and isinstance(t[3], tuple) and any(o == sel.DEF and nm == "file_path" for o, nm in t[3]) for t in terms) \
+                            or _is_field(f, a, sel.DEF, "file_path"):
+                        pins.append(bb)
+        for bb, rv, sp in aggs:
+            from_def = False
+            for o in rv[2]:
+                if any(ow == sel.DEF and nm in POS for ow, nm in _slice_fields(f, o)):
+                    from_def = True
+            if not from_def:
+                continue
+            n += 1
+            item = rv[1][1].split("::")[-1]
+            key = "R5i|%s|%s" % (f.root, item)
+            if any(pb in dom.get(bb, set()) for pb in pins):
+                r.ok(sample={"item": item, "in": f.root.split("::")[-1], "pinned_by": "file_path comparison"})
+            else:
+                r.violate(key, "%s builds a %s at %s from a FixtureDefinition without comparing its file_path: definitions of other "
+                               "files are reported at positions of the requested document" % (f.root.split("::")[-1], item, crate.span_str(sp)))
+    r.floor("uri-less items built from definitions", n, 1)
+    return r
